@@ -211,6 +211,10 @@ func golubKahanSVD(inSitu *InSitu, epsilon float64) (Matrix, Matrix, Matrix, err
 
   H, U, V, _ := householderBidiagonalization.Run(A, computeU, computeV, &inSitu.HouseholderBidiagonalization)
   B := H.Slice(0,n,0,n)
+  // the rotations from the left are accumulated in U^T
+  if U != nil {
+    U = U.T()
+  }
 
   for p, q, iter := 0, 0, 0; q < n; iter++ {
     if iter >= maxSweeps*n {
